@@ -335,7 +335,7 @@ class Lane:
                 shape=R["Shape"](R["ShapeType"].BOUNDING_BOX, tuple(float(v) for v in o["size"])),
                 velocity=tuple(o["vel"]) if o.get("vel") else None,
                 semantic_score=float(o["conf"]),
-                semantic_label=self.config.label_converter.convert_label(o["label"]),
+                semantic_label=self.config.label_converter.convert_label(o["label"], list(o.get("attrs", []))),
                 uuid=uuid,
             )
             info = {"k": k, "mid": msg["mid"], "spec": o, "frame": frame, "ego_pose": pe, "lane": self.name}
